@@ -193,6 +193,7 @@ package journal
 //@   props C12
 //@   ensures rwf(r) && r.err == nil && r.i == 0 && r.j == 0 && r.n == 0 && r.last
 //@   ensures result == old(r.err)
+//@   ensures [reads-the-new-source-with-the-new-settings] r.r == reader && r.dropper == dropper && r.strict == strict && r.checksum == checksum && r.seq == old(r.seq) + 1
 
 //@ func (*singleReader).Read
 //@   props C12
